@@ -441,7 +441,7 @@ class Check(core.PropertyCheck):
         names = [o["name"] for o in opts + late]
         return {"Opts": opts, "Late": late, "Listeners": listeners(names), "Updates": _updates(tier),
                 "Modes": frozenset({"fresh", "inplace", "late"}), "StrCls": ("plain", "exotic", "nel"),
-                "Lossy": frozenset({"nel"}), "TypeErrorRollsBack": False, "MaxOps": 6 if tier == "quick" else 3}
+                "Lossy": frozenset({"nel"}), "TypeCheckFirst": True, "MaxOps": 6 if tier == "quick" else 3}
 
     def model_runs(self, ctx):
         # the dumped graph holds every history of two calls; longer histories come from tlc -simulate (scenarios())
@@ -449,7 +449,14 @@ class Check(core.PropertyCheck):
         if ctx.quick:
             return [small]
         big = ctx.model_check(self.MODEL, self.model_constants("thorough"), dump=False, tag="_big")
-        return [small, big]
+        # design variant: the code before the repair of finding 1 (no type check before assigning) -- the monitor must
+        # reject it at the model level
+        old = ctx.model_check(self.MODEL, dict(self.model_constants("quick"), MaxOps=2, TypeCheckFirst=False), dump=False,
+                              tag="_variant")
+        if not any(b and b[0] == "C44.rejected_not_restored" and "TypeError" in b for b in old.bad):
+            raise core.MachineryError(f"the pre-repair design variant is not rejected by the monitor: {old.bad}")
+        ctx.notes["design_variant_TypeCheckFirst_FALSE_rejected_with"] = old.bad
+        return [small, big, old]
 
     # -- scenarios
     @staticmethod
